@@ -3,6 +3,7 @@ from __future__ import annotations
 import ast
 from ..core import expr as X
 from ..core.interp import Interp, Obj, Arr
+from ..core.interp import FuncRef as I_FuncRef
 from ..core.report import AnalysisError
 from ..oracles import ts72
 from .common import need_class, methods
@@ -161,3 +162,103 @@ def solver_bc_table(repo, solve_for, nondimensionalize=False, n_slices=8, n_laye
     fr = state['frame']
     b = fr.vars[bcname]
     return [b.store[b._key(k)] for k in range(3 * ntypes)], fr, sym
+
+
+class WiringProblem(Exception):
+    def __init__(self, msg, cname, where):
+        super().__init__(msg); self.cname = cname; self.where = where
+
+
+# ------------------------------------------------------------------------------------------------ material wiring: cf_build_solver -> __init__ / install_pointers -> update_interp -> diffeq
+def wired_rhs(repo, kind, static, incomp, l=None):
+    """Build the layer solver object through the repository's own cf_build_solver (class selection, RadialSolverBase.__init__, install_pointers), then interpret its
+    diffeq with the real update_interp.  CyRK's interpolation routines are abstracted by their contract: interp(t, x_array, y_array, n) is the value of the function
+    tabulated as (x_array, y_array) at t -- a symbol named after *which* arrays were handed in.  Returns (dy, y, P) with P the symbols a correctly wired solver must see:
+    density / gravity / bulk / shear interpolated from their own arrays over the radius array at the integrator's current radius, the frequency, degree and G handed in."""
+    mo = repo.by_path('TidalPy/RadialSolver/derivatives/odes.pyx')
+    fb = mo.defs.get('cf_build_solver')
+    if not isinstance(fb, ast.FunctionDef):
+        raise AnalysisError('cf_build_solver vanished')
+    nys = len(ts72.LAYOUT[(kind, static)])
+    names = ('radius', 'density', 'gravity', 'bulk_modulus', 'shear_modulus')
+    arrs = {nm: Arr(nm + '_array', default=(lambda k, nm=nm: X.atom(f'{nm}[{k}]', 'complex' if nm == 'shear_modulus' else 'pos'))) for nm in names}
+    tnow = X.atom('r', 'pos')
+    w = X.atom('w', 'pos'); G = X.atom('G_newton', 'pos'); lv = X.atom('l', 'pos') if l is None else X.const(l)
+    piv = X.atom('pi', 'pos')
+
+    def interp_value(args, kwargs):
+        t, xa, ya = args[0], args[1], args[2]
+        xn = xa.base.name if isinstance(xa, Arr) else '?'
+        yn = ya.base.name if isinstance(ya, Arr) else '?'
+        off = (xa.offset if isinstance(xa, Arr) else 0, ya.offset if isinstance(ya, Arr) else 0)
+        nm = yn.replace('_array', '') if (xn == 'radius_array' and off == (0, 0)) else f'{yn} tabulated over {xn} (offsets {off})'
+        kind_ = 'complex' if yn.startswith('shear') else 'pos'
+        if not (isinstance(t, X.Node) and t is tnow):
+            nm += ' at a radius other than the current one'
+        return X.atom(f'interp[{nm}]', kind_)
+
+    def call_hook(itp, f, args, kwargs, e, fr):
+        nm = getattr(f, 'name', '') if not isinstance(f, I_FuncRef) else f.node.name
+        base = str(nm).split('.')[-1]
+        if base in ('interp_ptr', 'interp_complex_ptr'):
+            return interp_value(args, kwargs)
+        if base == 'interpj_ptr':
+            return (interp_value(args, kwargs), 0)
+        return NotImplemented
+
+    def glob_hook(itp, mod, nm):
+        if nm in ('pi', 'M_PI'): return piv
+        if nm == 'EPS_100': return X.const(1) / 10 ** 14
+        return None
+    it = Interp(repo, hooks={'call': call_hook, 'global': glob_hook, 'construct': None}, max_depth=10)
+
+    def construct(itp, fcls, args, kwargs, e, fr):
+        # Python-level construction of one of the solver classes: run the repository's __init__ chain on a fresh object
+        cls_node = fcls[2]
+        o = Obj(cls=fcls, name=cls_node.name, attrs={'t_now': tnow, 'y_size': 2 * nys, 'rtols_ptr': Arr('rtols_ptr'), 'atols_ptr': Arr('atols_ptr'),
+                                                     'change_t_eval_pointer': (lambda *a, **k: None), 'reset_state': (lambda *a, **k: None), '_solve': (lambda *a, **k: None)})
+        init = itp.find_method(fcls, '__init__')
+        if init is None:
+            raise AnalysisError(f'{cls_node.name}: no __init__ reachable in the repository')
+        itp.call(init[0], init[1], list(args), dict(kwargs), self_obj=o, owner=init[2])
+        return o
+    it.hooks['construct'] = construct
+    y0 = Arr('y0_ptr', default=lambda k: X.atom(f'y0[{k}]'))
+    tol = Arr('tols', default=lambda k: X.const(1) / 1000)
+    lt = 0 if kind == 'solid' else 1
+    so = it.call(mo, fb, [lt, static, incomp, 5, 2 * nys, arrs['radius'], arrs['density'], arrs['gravity'], arrs['bulk_modulus'], arrs['shear_modulus'], w, lv, G,
+                          (X.atom('r_bottom', 'pos'), X.atom('r_top', 'pos')), y0, tol, tol, 1, X.atom('max_step', 'pos'), 1000, 100, 500, True])
+    if not isinstance(so, Obj):
+        raise AnalysisError('cf_build_solver did not return a solver object')
+    cname = so.cls[2].name if so.cls else '?'
+    # the integrator calls update_constants() once in reset_state (outside the repository): do it here if the class has it
+    uc = it.find_method(so.cls, 'update_constants')
+    if uc is not None:
+        it.call(uc[0], uc[1], [], {}, self_obj=so, owner=uc[2])
+    yre = [X.atom(f'yre{k}') for k in range(nys)]; yim = [X.atom(f'yim{k}') for k in range(nys)]
+    so.attrs['y_ptr'] = Arr('y_ptr', default=lambda k: (yre[k // 2] if k % 2 == 0 else yim[k // 2]))
+    dyp = Arr('dy_ptr'); so.attrs['dy_ptr'] = dyp
+    so.attrs['t_now'] = tnow
+    de = it.find_method(so.cls, 'diffeq')
+    if de is None:
+        raise AnalysisError(f'{cname}.diffeq vanished')
+    try:
+        it.call(de[0], de[1], [], {}, self_obj=so, owner=de[2])
+    except AnalysisError as ex:
+        if 'zero' in str(ex):
+            # a property the equations divide by still holds the 0 it was initialised with: it is never refreshed from its array
+            raise WiringProblem(f'{cname}.diffeq divides by a material property that is still its initial zero (not refreshed by update_interp): {ex}', cname, mo.where(de[1]))
+        raise
+    if sorted(dyp.store) != list(range(2 * nys)):
+        raise AnalysisError(f'{cname}.diffeq (built by cf_build_solver) writes dy slots {sorted(dyp.store)}')
+    dy = []
+    for k in range(nys):
+        a, b = dyp.store[2 * k], dyp.store[2 * k + 1]
+        if a.op == 'fn' and a.val == 'real' and b.op == 'fn' and b.val == 'imag' and a.args[0] is b.args[0]:
+            dy.append(a.args[0])
+        else:
+            dy.append(a + X.I * b)
+    y = [yre[k] + X.I * yim[k] for k in range(nys)]
+    P = {'r': tnow, 'rho': X.atom('interp[density]', 'pos'), 'g': X.atom('interp[gravity]', 'pos'), 'mu': X.atom('interp[shear_modulus]', 'complex'), 'K': X.atom('interp[bulk_modulus]', 'pos'),
+         'w': w, 'l': lv, 'fpG': 4 * piv * G}
+    return dy, y, P, cname, mo.where(de[1])
